@@ -285,9 +285,8 @@ def run(ctx: Ctx) -> None:
         ctx.ob("R14.5", f"parser:CxxParser.{fname}|custom token map #{_idx(pm, fname, call)}", ok,
                msg=f"a custom token map {m!r} is used but the function still treats {sorted(ends)} as closers: a closer that has no opener in the map is matched against the wrong pending bracket (or raises)",
                node=call, mod=mod)
-    check_lifo(ctx, "R14.5", pm)
     # the stack discipline inside the function: decided by interpretation over bracket scripts (sa/balanced.py)
-    balanced.obligations(ctx, "R14.5", pm, ("return", "fused"))
+    balanced.obligations(ctx, "R14.5", pm, ("return", "fused", "tolerant"))
 
     # ---------------------------------------------------------------- R14.7
     # A source token that the parser consumed as a FLAG (token_if("ELLIPSIS") -> param_pack = True)
@@ -344,54 +343,6 @@ def run(ctx: Ctx) -> None:
     c09.run(SubCtx(ctx, {"R9.3": ("R14.6", "pragma contents stop at the line end: a discarded token that can contain a newline is tested for one")}))  # type: ignore[arg-type]
 
 # ---------------------------------------------------------------------------
-
-
-def check_lifo(ctx: Ctx, rid: str, pm: ParserModel) -> None:
-    """The stack of expected closers is used strictly last-in-first-out: it is only
-    appended to, popped from the top, measured, tested for membership, or scanned
-    from the top (reversed).  A bottom-up access (index(), forward iteration,
-    remove(), [0], popleft()) matches a closer with the *outermost* pending opener."""
-    fname = "_consume_balanced_tokens"
-    fn = pm.fn(fname)
-    mod = pm.mod
-    stacks = set()
-    for st in walk_local(fn):
-        if isinstance(st, ast.Assign) and len(st.targets) == 1 and isinstance(st.targets[0], ast.Name) and isinstance(st.value, ast.Call) and norm(st.value.func) in ("deque", "list", "collections.deque"):
-            # the one that receives token_map[...] values
-            stacks.add(st.targets[0].id)
-    pushed = set()
-    for c in walk_local(fn):
-        if isinstance(c, ast.Call) and isinstance(c.func, ast.Attribute) and c.func.attr == "append" and isinstance(c.func.value, ast.Name) and c.func.value.id in stacks:
-            if any("token_map" in norm(a) or isinstance(a, ast.Name) for a in c.args):
-                pushed.add(c.func.value.id)
-    stacks = {s for s in stacks if s in pushed and s != "consumed"}
-    if not stacks:
-        raise AnalysisError("anchor vanished: expectation stack in _consume_balanced_tokens")
-    bad = []
-    for x in walk_local(fn):
-        if isinstance(x, ast.Name) and x.id in stacks and isinstance(x.ctx, ast.Load):
-            par = mod.parent.get(x)
-            gp = mod.parent.get(par) if par is not None else None
-            ok = False
-            if isinstance(par, ast.Attribute) and isinstance(gp, ast.Call) and gp.func is par:
-                if par.attr in ("append", "clear", "copy"):
-                    ok = True
-                elif par.attr == "pop" and not gp.args:
-                    ok = True
-            elif isinstance(par, ast.Call) and isinstance(par.func, ast.Name) and par.func.id in ("len", "reversed", "bool"):
-                ok = True
-            elif isinstance(par, ast.Compare) and any(isinstance(o, (ast.In, ast.NotIn)) for o in par.ops) and x in par.comparators:
-                ok = True
-            elif isinstance(par, (ast.UnaryOp, ast.If, ast.While, ast.BoolOp)):
-                ok = True
-            elif isinstance(par, ast.Subscript) and par.value is x:
-                sl = par.slice
-                ok = (isinstance(sl, ast.UnaryOp) and isinstance(sl.op, ast.USub)) or (isinstance(sl, ast.Slice) and sl.step is not None and norm(sl.step) == "-1")
-            if not ok:
-                bad.append(short(gp if isinstance(gp, ast.Call) else par, 50))
-    ctx.ob(rid, f"parser:CxxParser.{fname}|expectation stack is used last-in-first-out", not bad,
-           msg=f"the stack of expected closers is accessed from the bottom ({bad}): a tolerated '>' or closer is then matched with the outermost pending opener instead of the innermost, so a value ends at the wrong bracket",
-           node=fn, mod=mod)
 
 
 def _idx(pm: ParserModel, fname: str, call: ast.Call) -> int:
